@@ -113,4 +113,12 @@ LEVELS = {
   'note': 'Trusted: Lean kernel; hub and registry models; A-CHAIN-3 (Delegate/Undelegate move exactly the stated amounts). The invariant over whole histories (books <= delegations at every point) is the conjunction of these per-operation theorems; its induction over operation lists is not a separate theorem.',
   'technique': 'Lean 4 per-operation conservation theorems on top of C12; books-vs-delegations oracle on every implementation transaction',
  },
+ 'C07': {
+  'text': 'Invariant ClaimInv proved in Lean: for the open batch the sum over all users of recorded claims equals CurrentBatch.requested (per token); for every closed unreleased batch it equals the history amounts; for released batches it only falls; nothing is recorded for future batches. '
+          'Base C07_init; steps: C07_unbond_bsei_credits_sender_only / C07_unbond_stsei_credits_sender_only (the cw20 sender, and only that (user,batch) entry, is credited amount less fee; the same amount joins the batch total), C07_undelegation_keeps_claims (history stores exactly the totals), '
+          'C07_release_keeps_claims, C07_withdraw_removes_only_own_released / C07_withdraw_step (only the caller\'s entries on released batches disappear; nobody else\'s claim changes). Receive hooks from unregistered tokens are rejected (C10_hub). '
+          'On the implementation: per-batch sums of UnbondRequests vs CurrentBatch/AllHistory, credit and burn amounts, foreign-claim immutability after every step.',
+  'note': 'Trusted: Lean kernel; hub model (wait list as total maps + ghost key list); the other hub handlers do not touch the claim fields (SameClaims) - true by the handler characterisations, assembled for bond/convert/check in the model but not as one theorem over hubExec; legacy (pre-v2) entries are outside the invariant.',
+  'technique': 'Lean 4 invariant over the unbond state machine (sums over per-batch key lists); claim-sum oracle on every implementation step',
+ },
 }
